@@ -53,6 +53,11 @@ def shapes(qc, V=lambda x: x):
     out.append(("setop", qc.from_(t).select(t.a).where(t.b == V(11)).limit(V(21)).union(qc.from_(u).select(u.a).where(u.b == V(12))).orderby("a").limit(V(31)).offset(V(32))))
     out.append(("case-function", qc.from_(t).select(P.Case().when(t.a == V(1), V("one")).when(t.a == V(2), V("two")).else_(V("many")), fn.Coalesce(t.b, V(0), V("z")))))
     out.append(("in-list-between", qc.from_(t).select(t.a).where(t.a.isin([V(1), V("two"), V(3.5)])).where(t.b.between(V(4), V(5))).where(t.c.like(V("p%")))))
+    # query-builder objects wrapped as values (ValueWrapper(<term>)): statement text, never listed; the constants inside them are listed as usual
+    out.append(("wrapped-terms", qc.from_(t).select(T.ValueWrapper(t.a), T.ValueWrapper(t.b + V(5)).as_("w"), V(6)).where(t.c == T.ValueWrapper(fn.Coalesce(t.d, V("z"))))
+                .where(t.e.isin([T.ValueWrapper(t.f), V(7)]))))
+    out.append(("wrapped-subquery", qc.from_(t).select(t.a).where(t.b == T.ValueWrapper(qc.from_(u).select(fn.Max(u.b)).where(u.c == V(8)))).where(t.d == V(9))))
+    out.append(("update-set-wrapped-term", qc.update(t).set(t.a, T.ValueWrapper(t.b * V(2))).where(t.c == V(3))))
     out.append(("insert-rows", qc.into(t).columns("a", "b").insert(V(1), V("x")).insert(V(2), None)))
     out.append(("insert-select", qc.into(t).columns("a").from_(u).select(u.a, V(5)).where(u.b == V(6))))
     out.append(("join-on-value", qc.from_(t).join(u).on((t.a == u.a) & (u.b == V(13))).select(t.a, V(14)).where(t.c == V(15))))
